@@ -11,7 +11,6 @@ import (
 	"encoding/json"
 	"fmt"
 	"io"
-	"math"
 	"os"
 	"sort"
 	"strconv"
@@ -22,195 +21,6 @@ import (
 
 	"verifharness/internal/vl"
 )
-
-// ---------------------------------------------------------------- facts of a descriptor (oracle side)
-
-func (fa facts) dAnnos(pfx string, m map[string][]string) {
-	var keys []string
-	for k := range m {
-		keys = append(keys, k)
-	}
-	sort.Strings(keys)
-	fa[pfx+".annokeys"] = strings.Join(keys, ",")
-	for _, k := range keys {
-		fa[pfx+".anno:"+k] = strings.Join(m[k], "\x1f")
-	}
-}
-
-func (fa facts) dTy(pfx string, t *tr.TypeDescriptor, path string, bad *[]string) {
-	if t == nil {
-		fa[pfx] = "<nil>"
-		return
-	}
-	if t.Filepath != path {
-		*bad = append(*bad, pfx)
-	}
-	fa[pfx] = t.Name
-	if t.KeyType != nil {
-		fa.dTy(pfx+".key", t.KeyType, path, bad)
-	} else {
-		fa[pfx+".key"] = "<nil>"
-	}
-	if t.ValueType != nil {
-		fa.dTy(pfx+".val", t.ValueType, path, bad)
-	} else {
-		fa[pfx+".val"] = "<nil>"
-	}
-}
-
-func dConstFact(c *tr.ConstValueDescriptor) string {
-	if c == nil {
-		return "<none>"
-	}
-	switch c.Type {
-	case tr.ConstValueType_INT:
-		return "int:" + strconv.FormatInt(c.ValueInt, 10)
-	case tr.ConstValueType_DOUBLE:
-		return fmt.Sprintf("double:%016x", math.Float64bits(c.ValueDouble))
-	case tr.ConstValueType_STRING:
-		return "string:" + strconv.Quote(c.ValueString)
-	case tr.ConstValueType_BOOL:
-		return "bool:" + strconv.FormatBool(c.ValueBool)
-	case tr.ConstValueType_IDENTIFIER:
-		return "ident:" + c.ValueIdentifier
-	case tr.ConstValueType_LIST:
-		var p []string
-		for _, e := range c.ValueList {
-			p = append(p, dConstFact(e))
-		}
-		return "list[" + strings.Join(p, ",") + "]"
-	case tr.ConstValueType_MAP:
-		var p []string
-		for k, v := range c.ValueMap {
-			p = append(p, dConstFact(k)+"=>"+dConstFact(v))
-		}
-		sort.Strings(p)
-		return "map{" + strings.Join(p, ",") + "}"
-	}
-	return "?"
-}
-
-func (fa facts) dFields(pfx string, fs []*tr.FieldDescriptor, path string, bad *[]string) {
-	fa[pfx+".n"] = strconv.Itoa(len(fs))
-	for i, f := range fs {
-		p := fmt.Sprintf("%s[%d]", pfx, i)
-		if f.Filepath != path {
-			*bad = append(*bad, p)
-		}
-		fa[p+".name"] = f.Name
-		fa[p+".id"] = strconv.Itoa(int(f.ID))
-		fa[p+".req"] = f.Requiredness
-		fa.dTy(p+".type", f.Type, path, bad)
-		fa[p+".default"] = dConstFact(f.DefaultValue)
-		fa.dAnnos(p, f.Annotations)
-		fa[p+".comments"] = f.Comments
-	}
-}
-
-func (fa facts) dStructs(grp string, ss []*tr.StructDescriptor, path string, bad *[]string) {
-	fa[grp+".n"] = strconv.Itoa(len(ss))
-	for i, s := range ss {
-		p := fmt.Sprintf("%s[%d]", grp, i)
-		if s.Filepath != path {
-			*bad = append(*bad, p)
-		}
-		fa[p+".name"] = s.Name
-		fa.dFields(p+".fields", s.Fields, path, bad)
-		fa.dAnnos(p, s.Annotations)
-		fa[p+".comments"] = s.Comments
-	}
-}
-
-// descFacts flattens what a file descriptor states, in the key space of Doc.Facts.
-func descFacts(fd *tr.FileDescriptor) facts {
-	fa := facts{}
-	var bad []string
-	path := fd.Filepath
-	fa["filename"] = fd.Filepath
-	for a, p := range fd.Includes {
-		fa["include:"+p] = "1"
-		fa["includeprefix:"+a] = p
-	}
-	for l, n := range fd.Namespaces {
-		fa["namespace:"+l+"="+n] = "1"
-	}
-	fa["typedefs.n"] = strconv.Itoa(len(fd.Typedefs))
-	for i, t := range fd.Typedefs {
-		p := fmt.Sprintf("typedefs[%d]", i)
-		if t.Filepath != path {
-			bad = append(bad, p)
-		}
-		fa[p+".alias"] = t.Alias
-		fa.dTy(p+".type", t.Type, path, &bad)
-		fa.dAnnos(p, t.Annotations)
-		fa[p+".comments"] = t.Comments
-	}
-	fa["consts.n"] = strconv.Itoa(len(fd.Consts))
-	for i, c := range fd.Consts {
-		p := fmt.Sprintf("consts[%d]", i)
-		if c.Filepath != path {
-			bad = append(bad, p)
-		}
-		fa[p+".name"] = c.Name
-		fa.dTy(p+".type", c.Type, path, &bad)
-		fa[p+".value"] = dConstFact(c.Value)
-		fa.dAnnos(p, c.Annotations)
-		fa[p+".comments"] = c.Comments
-	}
-	fa["enums.n"] = strconv.Itoa(len(fd.Enums))
-	for i, e := range fd.Enums {
-		p := fmt.Sprintf("enums[%d]", i)
-		if e.Filepath != path {
-			bad = append(bad, p)
-		}
-		fa[p+".name"] = e.Name
-		fa[p+".values.n"] = strconv.Itoa(len(e.Values))
-		for j, v := range e.Values {
-			q := fmt.Sprintf("%s.values[%d]", p, j)
-			if v.Filepath != path {
-				bad = append(bad, q)
-			}
-			fa[q+".name"] = v.Name
-			fa[q+".value"] = strconv.FormatInt(v.Value, 10)
-			fa.dAnnos(q, v.Annotations)
-			fa[q+".comments"] = v.Comments
-		}
-		fa.dAnnos(p, e.Annotations)
-		fa[p+".comments"] = e.Comments
-	}
-	fa.dStructs("structs", fd.Structs, path, &bad)
-	fa.dStructs("unions", fd.Unions, path, &bad)
-	fa.dStructs("exceptions", fd.Exceptions, path, &bad)
-	fa["services.n"] = strconv.Itoa(len(fd.Services))
-	for i, s := range fd.Services {
-		p := fmt.Sprintf("services[%d]", i)
-		if s.Filepath != path {
-			bad = append(bad, p)
-		}
-		fa[p+".name"] = s.Name
-		fa[p+".base"] = s.Base
-		fa[p+".methods.n"] = strconv.Itoa(len(s.Methods))
-		for j, m := range s.Methods {
-			q := fmt.Sprintf("%s.methods[%d]", p, j)
-			if m.Filepath != path {
-				bad = append(bad, q)
-			}
-			fa[q+".name"] = m.Name
-			fa[q+".oneway"] = strconv.FormatBool(m.IsOneway)
-			fa.dTy(q+".response", m.Response, path, &bad)
-			fa.dFields(q+".args", m.Args, path, &bad)
-			fa.dFields(q+".throws", m.ThrowExceptions, path, &bad)
-			fa.dAnnos(q, m.Annotations)
-			fa[q+".comments"] = m.Comments
-		}
-		fa.dAnnos(p, s.Annotations)
-		fa[p+".comments"] = s.Comments
-	}
-	if len(bad) > 0 {
-		fa["filepaths"] = "inconsistent at " + strings.Join(bad, ",")
-	}
-	return fa
-}
 
 var idxRe = strings.NewReplacer("0", "", "1", "", "2", "", "3", "", "4", "", "5", "", "6", "", "7", "", "8", "", "9", "")
 
@@ -367,51 +177,6 @@ func wellFormedName(n string) bool {
 	return true
 }
 
-type tdKey struct {
-	path, name string
-	uuid       bool
-}
-
-func collectTDs(fd *tr.FileDescriptor, key string, into map[tdKey]*tr.TypeDescriptor, order *[]tdKey) {
-	var walk func(t *tr.TypeDescriptor)
-	walk = func(t *tr.TypeDescriptor) {
-		if t == nil {
-			return
-		}
-		k := tdKey{t.Filepath, t.Name, t.Extra[key] != ""}
-		if _, ok := into[k]; !ok {
-			into[k] = t
-			*order = append(*order, k)
-		}
-		walk(t.KeyType)
-		walk(t.ValueType)
-	}
-	for _, group := range [][]*tr.StructDescriptor{fd.Structs, fd.Unions, fd.Exceptions} {
-		for _, s := range group {
-			for _, f := range s.Fields {
-				walk(f.Type)
-			}
-		}
-	}
-	for _, s := range fd.Services {
-		for _, m := range s.Methods {
-			walk(m.Response)
-			for _, f := range m.Args {
-				walk(f.Type)
-			}
-			for _, f := range m.ThrowExceptions {
-				walk(f.Type)
-			}
-		}
-	}
-	for _, t := range fd.Typedefs {
-		walk(t.Type)
-	}
-	for _, c := range fd.Consts {
-		walk(c.Type)
-	}
-}
-
 // evaluate runs one Doc through the implementation, emits correspondence cases into out and returns
 // the oracle failures (implementation only).
 func evaluate(d *Doc, out sink, r *vl.Rng) (fails []ofail, err error) {
@@ -507,6 +272,24 @@ func evaluate(d *Doc, out sink, r *vl.Rng) (fails []ofail, err error) {
 		}
 	}
 
+	// ---- the parser's Annotations.Append on the source-level annotation lists of the Doc
+	for _, as := range docAnnoLists(d) {
+		op := fmt.Sprintf("AA %d", len(as))
+		var pa parser.Annotations
+		for _, a := range as {
+			op += " " + vl.Hex(a.Key) + " " + vl.Hex(a.Val)
+			pa.Append(a.Key, a.Val)
+		}
+		res := fmt.Sprintf("ok %d", len(pa))
+		for _, a := range pa {
+			res += fmt.Sprintf(" %s %d", vl.Hex(a.Key), len(a.Values))
+			for _, v := range a.Values {
+				res += " " + vl.Hex(v)
+			}
+		}
+		out.Case(op, res, true)
+	}
+
 	// ---- registry and lookups
 	out.Case("P", "ok", false)
 	for i, f := range d.Files {
@@ -535,73 +318,48 @@ func evaluate(d *Doc, out sink, r *vl.Rng) (fails []ofail, err error) {
 	uuid := rfd.Extra[tr.GLOBAL_UUID_EXTRA_KEY]
 	uuidCanon[uuid] = "UUID"
 	defer delete(uuidCanon, uuid)
-
+	reach := func(i int) bool { return byPath[d.Files[i].Path] != nil }
+	ex := func(op string) (string, string) { return execOp(gd, strings.Fields(op)) }
+	var tdks []tdKey
+	tds := map[tdKey]*tr.TypeDescriptor{}
 	for _, f := range d.Files {
-		if byPath[f.Path] == nil {
+		if fd := gd.LookupFD(f.Path); fd != nil {
+			collectTDs(fd, tr.GLOBAL_UUID_EXTRA_KEY, tds, &tdks)
+		}
+	}
+	fails = append(fails, evalLookups(d, reach, ex, tdks, true, out, r)...)
+	return fails, nil
+}
+
+// evalLookups emits the registry dumps and lookup ops of one registered program through `ex` (which runs
+// an op against the registry holding the program: in-process, or in the compiled driver) and checks, from the
+// Doc alone, that each answer is the very descriptor of the definition the name denotes.
+// stamped: descriptors of this registry carry the registry uuid (RegisterAST mode).
+func evalLookups(d *Doc, reach func(int) bool, ex func(op string) (string, string), tdks []tdKey, stamped bool, out sink, r *vl.Rng) (fails []ofail) {
+	add := func(class, what, exp, obs string) {
+		fails = append(fails, ofail{class, what, exp, obs})
+	}
+	idxOf := map[string]int{}
+	for i, f := range d.Files {
+		idxOf[f.Path] = i
+	}
+	for i, f := range d.Files {
+		if !reach(i) {
 			continue
 		}
-		fd := gd.LookupFD(f.Path)
-		res := "nil"
-		if fd != nil {
-			res = "ok " + descDump(fd)
-		}
-		out.Case("GD "+vl.Hex(f.Path), res, true)
-		if fd == nil {
+		op := "GD " + vl.Hex(f.Path)
+		res, _ := ex(op)
+		out.Case(op, res, true)
+		if res == "nil" {
 			add("registry", f.Path+" reachable from the main file is not registered", "registered", "nil")
 		}
 	}
-
-	lookup := func(kind byte, path, name string) (interface{}, bool) {
-		switch kind {
-		case 's':
-			x := gd.LookupStruct(name, path)
-			return x, x == nil
-		case 'u':
-			x := gd.LookupUnion(name, path)
-			return x, x == nil
-		case 'x':
-			x := gd.LookupException(name, path)
-			return x, x == nil
-		case 'e':
-			x := gd.LookupEnum(name, path)
-			return x, x == nil
-		case 't':
-			x := gd.LookupTypedef(name, path)
-			return x, x == nil
-		case 'c':
-			x := gd.LookupConst(name, path)
-			return x, x == nil
-		case 'v':
-			x := gd.LookupService(name, path)
-			return x, x == nil
-		}
-		panic("kind")
-	}
-	defAt := func(kind byte, fj, k int) interface{} {
-		fd := gd.LookupFD(d.Files[fj].Path)
-		if fd == nil {
-			return nil
-		}
-		switch kind {
-		case 's':
-			return fd.Structs[k]
-		case 'u':
-			return fd.Unions[k]
-		case 'x':
-			return fd.Exceptions[k]
-		case 'e':
-			return fd.Enums[k]
-		case 't':
-			return fd.Typedefs[k]
-		case 'c':
-			return fd.Consts[k]
-		case 'v':
-			return fd.Services[k]
-		}
-		return nil
-	}
-	checkDenotes := func(class, what string, fi int, kind byte, name string, got interface{}, gotNil bool) {
+	checkDenotes := func(class, what string, fi int, kind byte, name string, res, ident string) {
 		if !wellFormedName(name) {
+			return
+		}
+		if res == "panic" {
+			add("lookup-panic", what+" panics", "nil or a descriptor", "panic")
 			return
 		}
 		fj, k, ok := expectDef(d, fi, kind, name)
@@ -609,67 +367,62 @@ func evaluate(d *Doc, out sink, r *vl.Rng) (fails []ofail, err error) {
 			class = "include-basename-collision"
 		}
 		if !ok {
-			if !gotNil {
-				add(class, what, "nil (the IDL defines no such "+string(kind)+")", "a descriptor")
+			if res != "nil" {
+				add(class, what, "nil (the IDL defines no such "+string(kind)+")", "a descriptor: "+ident)
 			}
 			return
 		}
-		want := defAt(kind, fj, k)
-		if gotNil {
-			add(class, what, fmt.Sprintf("the descriptor of %s #%d of %s", string(kind), k, d.Files[fj].Path), "nil")
-		} else if got != want {
-			add(class, what, fmt.Sprintf("the descriptor of %s #%d of %s", string(kind), k, d.Files[fj].Path), "another descriptor: "+clip(descDump(got)))
+		want := fmt.Sprintf("%s|%c|%d", d.Files[fj].Path, kind, k)
+		if ident != want {
+			if res == "nil" {
+				ident = "nil"
+			}
+			add(class, what, "the descriptor "+want, ident)
 		}
 	}
-
 	kinds := []byte{'s', 'u', 'x', 'e', 't', 'c', 'v'}
 	for fi, f := range d.Files {
-		if byPath[f.Path] == nil {
+		if !reach(fi) {
 			continue
 		}
-		// candidate names: every definition of this file and of its includes (qualified), plus misses
 		type cand struct {
 			kind byte
 			name string
 		}
 		var cands []cand
-		namesOf := func(g *DFile) map[byte][]string {
-			m := map[byte][]string{}
+		namesOf := func(g *DFile) [][2]string {
+			var m [][2]string
 			for _, s := range g.Structs {
-				m[s.Kind] = append(m[s.Kind], s.Name)
+				m = append(m, [2]string{string(s.Kind), s.Name})
 			}
 			for _, e := range g.Enums {
-				m['e'] = append(m['e'], e.Name)
+				m = append(m, [2]string{"e", e.Name})
 			}
 			for _, e := range g.Typedefs {
-				m['t'] = append(m['t'], e.Alias)
+				m = append(m, [2]string{"t", e.Alias})
 			}
 			for _, e := range g.Consts {
-				m['c'] = append(m['c'], e.Name)
+				m = append(m, [2]string{"c", e.Name})
 			}
 			for _, e := range g.Services {
-				m['v'] = append(m['v'], e.Name)
+				m = append(m, [2]string{"v", e.Name})
 			}
 			return m
 		}
-		for k, ns := range namesOf(f) {
-			for _, n := range ns {
-				cands = append(cands, cand{k, n})
-				if r.Chance(15) {
-					cands = append(cands, cand{kinds[r.Intn(len(kinds))], n}) // right name, maybe wrong kind
-				}
+		for _, kn := range namesOf(f) {
+			cands = append(cands, cand{kn[0][0], kn[1]})
+			if r.Chance(15) {
+				cands = append(cands, cand{kinds[r.Intn(len(kinds))], kn[1]}) // right name, maybe wrong kind
 			}
 		}
 		for _, j := range f.Includes {
 			p := prefixOf(d.Files[j].Path)
-			for k, ns := range namesOf(d.Files[j]) {
-				for _, n := range ns {
-					if r.Chance(60) {
-						cands = append(cands, cand{k, p + "." + n})
-					}
-					if r.Chance(10) {
-						cands = append(cands, cand{k, n}) // unqualified name of an included definition
-					}
+			for _, kn := range namesOf(d.Files[j]) {
+				if r.Chance(60) {
+					cands = append(cands, cand{kn[0][0], p + "." + kn[1]})
+				}
+				if r.Chance(10) {
+					cands = append(cands, cand{kn[0][0], kn[1]}) // unqualified name of an included definition
 				}
 			}
 			if r.Chance(30) {
@@ -681,12 +434,6 @@ func evaluate(d *Doc, out sink, r *vl.Rng) (fails []ofail, err error) {
 				cands = append(cands, cand{kinds[r.Intn(len(kinds))], n})
 			}
 		}
-		sort.Slice(cands, func(i, j int) bool {
-			if cands[i].kind != cands[j].kind {
-				return cands[i].kind < cands[j].kind
-			}
-			return cands[i].name < cands[j].name
-		})
 		if len(cands) > 24 {
 			for i := len(cands) - 1; i > 0; i-- {
 				j := r.Intn(i + 1)
@@ -695,72 +442,52 @@ func evaluate(d *Doc, out sink, r *vl.Rng) (fails []ofail, err error) {
 			cands = cands[:24]
 		}
 		for _, c := range cands {
-			var got interface{}
-			var isNil bool
-			res := guard(func() string {
-				got, isNil = lookup(c.kind, f.Path, c.name)
-				if isNil {
-					return "nil"
-				}
-				return "ok " + descDump(got)
-			})
-			out.Case(fmt.Sprintf("L %c %s %s", c.kind, vl.Hex(f.Path), vl.Hex(c.name)), res, true)
+			op := fmt.Sprintf("L %c %s %s", c.kind, vl.Hex(f.Path), vl.Hex(c.name))
+			res, ident := ex(op)
+			out.Case(op, res, true)
 			out.Count("lookup:" + string(c.kind) + ":" + map[bool]string{true: "nil", false: "found"}[res == "nil"])
-			if res == "panic" {
-				add("lookup-panic", fmt.Sprintf("Lookup %c %q from %s panics", c.kind, c.name, f.Path), "nil or a descriptor", "panic")
+			checkDenotes("lookup", fmt.Sprintf("Lookup %c %q from %s", c.kind, c.name, f.Path), fi, c.kind, c.name, res, ident)
+		}
+		// methods, parents
+		for si, s := range f.Services {
+			if _, k0, _ := expectDef(d, fi, 'v', s.Name); k0 != si {
 				continue
 			}
-			checkDenotes("lookup", fmt.Sprintf("Lookup %c %q from %s", c.kind, c.name, f.Path), fi, c.kind, c.name, got, isNil)
-		}
-		// methods
-		for _, s := range f.Services {
 			for mi, m := range s.Funcs {
+				first := true
+				for j := 0; j < mi; j++ {
+					if s.Funcs[j].Name == m.Name {
+						first = false
+					}
+				}
 				for _, svc := range []string{s.Name, ""} {
 					if svc == "" && !r.Chance(30) {
 						continue
 					}
-					var got *tr.MethodDescriptor
-					res := guard(func() string {
-						got = gd.LookupMethod(m.Name, svc, f.Path)
-						if got == nil {
-							return "nil"
-						}
-						return "ok " + descDump(got)
-					})
-					out.Case(fmt.Sprintf("LM %s %s %s", vl.Hex(f.Path), vl.Hex(svc), vl.Hex(m.Name)), res, true)
-					if svc != "" {
-						_, k, _ := expectDef(d, fi, 'v', s.Name)
-						fd := gd.LookupFD(f.Path)
-						if fd != nil && k < len(fd.Services) && mi < len(fd.Services[k].Methods) && got != fd.Services[k].Methods[mi] {
-							add("lookup-method", fmt.Sprintf("LookupMethod %s.%s from %s", s.Name, m.Name, f.Path), "the method's descriptor", clip(res))
+					op := fmt.Sprintf("LM %s %s %s", vl.Hex(f.Path), vl.Hex(svc), vl.Hex(m.Name))
+					res, ident := ex(op)
+					out.Case(op, res, true)
+					if svc != "" && first {
+						if want := fmt.Sprintf("%s|m|%d.%d", f.Path, si, mi); ident != want {
+							add("lookup-method", fmt.Sprintf("LookupMethod %s.%s from %s", s.Name, m.Name, f.Path), want, res[:min(len(res), 3)]+" "+ident)
 						}
 					}
 				}
 			}
 			if r.Chance(30) {
-				res := guard(func() string {
-					got := gd.LookupMethod("nope", s.Name, f.Path)
-					if got == nil {
-						return "nil"
-					}
-					return "ok " + descDump(got)
-				})
-				out.Case(fmt.Sprintf("LM %s %s %s", vl.Hex(f.Path), vl.Hex(s.Name), vl.Hex("nope")), res, true)
-			}
-			// parent
-			var got *tr.ServiceDescriptor
-			res := guard(func() string {
-				sd := gd.LookupFD(f.Path).GetServiceDescriptor(s.Name)
-				got = sd.GetParent()
-				if got == nil {
-					return "nil"
+				op := fmt.Sprintf("LM %s %s %s", vl.Hex(f.Path), vl.Hex(s.Name), vl.Hex("nope"))
+				res, _ := ex(op)
+				out.Case(op, res, true)
+				if res != "nil" {
+					add("lookup-method", fmt.Sprintf("LookupMethod %s.nope from %s", s.Name, f.Path), "nil", clip(res))
 				}
-				return "ok " + descDump(got)
-			})
-			out.Case(fmt.Sprintf("SP %s %s", vl.Hex(f.Path), vl.Hex(s.Name)), res, true)
+			}
+			op := fmt.Sprintf("SP %s %s", vl.Hex(f.Path), vl.Hex(s.Name))
+			res, ident := ex(op)
+			out.Case(op, res, true)
 			if s.Extends != "" {
-				checkDenotes("service-parent", fmt.Sprintf("GetParent of %s in %s (extends %s)", s.Name, f.Path, s.Extends), fi, 'v', s.Extends, got, got == nil)
-			} else if got != nil {
+				checkDenotes("service-parent", fmt.Sprintf("GetParent of %s in %s (extends %s)", s.Name, f.Path, s.Extends), fi, 'v', s.Extends, res, ident)
+			} else if res != "nil" {
 				add("service-parent", fmt.Sprintf("GetParent of %s in %s (no extends)", s.Name, f.Path), "nil", clip(res))
 			}
 		}
@@ -772,20 +499,7 @@ func evaluate(d *Doc, out sink, r *vl.Rng) (fails []ofail, err error) {
 			if !r.Chance(60) {
 				continue
 			}
-			fd := gd.LookupFD(f.Path)
-			var sd *tr.StructDescriptor
-			switch s.Kind {
-			case 's':
-				sd = fd.Structs[k]
-			case 'u':
-				sd = fd.Unions[k]
-			default:
-				sd = fd.Exceptions[k]
-			}
-			if first, _, ok := expectDef(d, fi, s.Kind, s.Name); !ok || first != fi {
-				continue
-			}
-			if _, k0, _ := expectDef(d, fi, s.Kind, s.Name); k0 != k {
+			if fj, k0, ok := expectDef(d, fi, s.Kind, s.Name); !ok || fj != fi || k0 != k {
 				continue // a second definition with the same name: by-name ops reach the first
 			}
 			type q struct {
@@ -794,44 +508,34 @@ func evaluate(d *Doc, out sink, r *vl.Rng) (fails []ofail, err error) {
 			}
 			var qs []q
 			for i, fl := range s.Fields {
-				wi := i
-				for j := 0; j < i; j++ {
+				wn, wi := i, i
+				for j := i - 1; j >= 0; j-- {
 					if s.Fields[j].Name == fl.Name {
+						wn = j
+					}
+					if s.Fields[j].ID == fl.ID {
 						wi = j
 					}
 				}
-				qs = append(qs, q{"FN", vl.Hex(fl.Name), wi}, q{"FI", strconv.Itoa(int(fl.ID)), i})
+				qs = append(qs, q{"FN", vl.Hex(fl.Name), wn}, q{"FI", strconv.Itoa(int(fl.ID)), wi})
 			}
 			qs = append(qs, q{"FN", vl.Hex("nope"), -1}, q{"FI", "9999", -1})
 			for _, x := range qs {
-				var got *tr.FieldDescriptor
-				res := guard(func() string {
-					if x.op == "FN" {
-						got = sd.GetFieldByName(vl.UnHex(x.arg))
-					} else {
-						n, _ := strconv.Atoi(x.arg)
-						got = sd.GetFieldById(int32(n))
-					}
-					if got == nil {
-						return "nil"
-					}
-					return "ok " + descDump(got)
-				})
-				out.Case(fmt.Sprintf("%s %s %c %s %s", x.op, vl.Hex(f.Path), s.Kind, vl.Hex(s.Name), x.arg), res, true)
-				if x.want < 0 && got != nil || x.want >= 0 && got != sd.Fields[x.want] {
-					add("field-lookup", fmt.Sprintf("%s %s of %s in %s", x.op, x.arg, s.Name, f.Path), fmt.Sprintf("field #%d", x.want), clip(res))
+				op := fmt.Sprintf("%s %s %c %s %s", x.op, vl.Hex(f.Path), s.Kind, vl.Hex(s.Name), x.arg)
+				res, ident := ex(op)
+				out.Case(op, res, true)
+				want := ""
+				if x.want >= 0 {
+					want = fmt.Sprintf("%s|f|%c%d.%d", f.Path, s.Kind, k, x.want)
+				}
+				if ident != want || res == "panic" {
+					add("field-lookup", fmt.Sprintf("%s %s of %s in %s", x.op, x.arg, s.Name, f.Path), "field "+want, res[:min(len(res), 5)]+" "+ident)
 				}
 			}
 		}
 	}
 	// type descriptors → definitions
-	tds := map[tdKey]*tr.TypeDescriptor{}
-	var order []tdKey
-	for _, f := range d.Files {
-		if fd := gd.LookupFD(f.Path); fd != nil {
-			collectTDs(fd, tr.GLOBAL_UUID_EXTRA_KEY, tds, &order)
-		}
-	}
+	order := append([]tdKey{}, tdks...)
 	if len(order) > 30 {
 		for i := len(order) - 1; i > 0; i-- {
 			j := r.Intn(i + 1)
@@ -840,57 +544,37 @@ func evaluate(d *Doc, out sink, r *vl.Rng) (fails []ofail, err error) {
 		order = order[:30]
 	}
 	for _, k := range order {
-		td := tds[k]
 		fi := idxOf[k.path]
 		if isBuiltinName(k.name) && !r.Chance(8) {
 			continue
 		}
 		for _, how := range []byte{'s', 'u', 'x', 'e', 't'} {
-			var got interface{}
-			var isNil bool
-			res := guard(func() string {
-				switch how {
-				case 's':
-					x, _ := td.GetStructDescriptor()
-					got, isNil = x, x == nil
-				case 'u':
-					x, _ := td.GetUnionDescriptor()
-					got, isNil = x, x == nil
-				case 'x':
-					x, _ := td.GetExceptionDescriptor()
-					got, isNil = x, x == nil
-				case 'e':
-					x, _ := td.GetEnumDescriptor()
-					got, isNil = x, x == nil
-				case 't':
-					x, _ := td.GetTypedefDescriptor()
-					got, isNil = x, x == nil
-				}
-				if isNil {
-					return "nil"
-				}
-				return "ok " + descDump(got)
-			})
-			out.Case(fmt.Sprintf("TD %c %s %s %s", how, vl.Hex(k.path), vl.Hex(k.name), vl.B(k.uuid)), res, true)
+			op := fmt.Sprintf("TD %c %s %s %s", how, vl.Hex(k.path), vl.Hex(k.name), vl.B(k.uuid))
+			res, ident := ex(op)
+			out.Case(op, res, true)
 			out.Count("typedesc:" + string(how) + ":" + map[bool]string{true: "nil", false: "found"}[res == "nil"])
-			if res == "panic" {
-				add("lookup-panic", fmt.Sprintf("TypeDescriptor{%s,%s}.Get(%c) panics", k.path, k.name, how), "nil or a descriptor", "panic")
-				continue
-			}
+			what := fmt.Sprintf("TypeDescriptor{%s,%s,registry=%v}.Get(%c)", k.path, k.name, k.uuid, how)
 			if isBuiltinName(k.name) {
-				if !isNil {
-					add("typedesc", fmt.Sprintf("TypeDescriptor %s of %s resolves to a definition", k.name, k.path), "nil", clip(res))
+				if res != "nil" {
+					add("typedesc", what, "nil", clip(res))
 				}
 				continue
 			}
 			class := "typedesc"
-			if !k.uuid {
+			if stamped && !k.uuid {
 				class = "const-type-no-registry"
 			}
-			checkDenotes(class, fmt.Sprintf("TypeDescriptor{%s,%s,registry=%v}.Get(%c)", k.path, k.name, k.uuid, how), fi, how, k.name, got, isNil)
+			checkDenotes(class, what, fi, how, k.name, res, ident)
 		}
 	}
-	return fails, nil
+	return fails
+}
+
+func min(a, b int) int {
+	if a < b {
+		return a
+	}
+	return b
 }
 
 func isBuiltinName(n string) bool {
@@ -899,6 +583,27 @@ func isBuiltinName(n string) bool {
 		return true
 	}
 	return false
+}
+
+// docAnnoLists: the non-empty annotation lists of struct-likes and their fields (a sample of all lists)
+func docAnnoLists(d *Doc) [][]Anno {
+	var out [][]Anno
+	for _, f := range d.Files {
+		for _, s := range f.Structs {
+			if len(s.Annos) > 0 {
+				out = append(out, s.Annos)
+			}
+			for _, fl := range s.Fields {
+				if len(fl.Annos) > 1 {
+					out = append(out, fl.Annos)
+				}
+			}
+		}
+	}
+	if len(out) > 6 {
+		out = out[:6]
+	}
+	return out
 }
 
 func clip(s string) string {
